@@ -34,6 +34,7 @@ import (
 	"time"
 
 	"github.com/mgtv-tech/redis-GunYu/config"
+	"github.com/mgtv-tech/redis-GunYu/pkg/redis/client/common"
 	"github.com/mgtv-tech/redis-GunYu/pkg/vfdoubles"
 	"github.com/mgtv-tech/redis-GunYu/pkg/vfutil"
 )
@@ -52,6 +53,9 @@ type vfoScn struct {
 	Cmds     []vfoCmd
 	During   []vfdoubles.Sched
 	Cross    bool // transactional stream with a batch spanning two nodes
+	NoFollow bool // plain mode with handleMoveErr/handleAskErr switched off in the configuration
+	Fault    string // er | cb | ac injected at request FaultAt ("" = none)
+	FaultAt  int
 }
 
 func vfoEncode(args ...string) []byte {
@@ -84,6 +88,9 @@ func vfoRun(scn *vfoScn) (*vfoResult, error) {
 	// always needed once a slot has moved (and D22 cannot interfere)
 	d.EnablePark(1)
 	sc := append([]vfdoubles.Sched(nil), scn.During...)
+	if scn.Fault != "" {
+		sc = append(sc, vfdoubles.Sched{At: scn.FaultAt, Ev: vfdoubles.MigEv{Kind: "F", Key: scn.Fault}})
+	}
 	sort.SliceStable(sc, func(i, j int) bool { return sc[i].At < sc[j].At })
 	d.SetSchedule(sc)
 
@@ -98,7 +105,7 @@ func vfoRun(scn *vfoScn) (*vfoResult, error) {
 	cfg.Redis.Type = config.RedisTypeCluster
 	cfg.Redis.Otype = config.RedisTypeCluster
 	cfg.Redis.Addresses = config.SliceString(d.Addrs())
-	cfg.Redis.ClusterOptions = &config.RedisClusterOptions{HandleMoveErr: true, HandleAskErr: true}
+	cfg.Redis.ClusterOptions = &config.RedisClusterOptions{HandleMoveErr: !scn.NoFollow, HandleAskErr: !scn.NoFollow}
 	ro := NewRedisOutput(cfg) // transactional + cluster: switches redirect following off
 
 	var stream []byte
@@ -115,38 +122,39 @@ func vfoRun(scn *vfoScn) (*vfoResult, error) {
 	go func() { pw.Write(stream) }()
 
 	res := &vfoResult{}
+	// No real-time decision: the input is closed only when every command has
+	// EXECUTED (so nothing can be reported lost because of when the input ended),
+	// or the run has already returned by itself (a reported error). Only a run
+	// that does neither within the deadline is judged, as "sender-stalled".
 	finished := false
-	dl := time.Now().Add(8 * time.Second)
-	for {
-		if len(d.Unseen(ids)) == 0 {
+	dl := time.Now().Add(12 * time.Second)
+	for !finished {
+		if d.AllExecuted(ids) {
 			break
 		}
 		select {
 		case res.Err = <-done:
 			finished = true
 		default:
+			if time.Now().After(dl) {
+				res.Stalled = true
+				finished = true
+				cancel()
+				res.Err = <-done
+			} else {
+				time.Sleep(200 * time.Microsecond)
+			}
 		}
-		if finished {
-			break
-		}
-		if time.Now().After(dl) {
-			res.Stalled = true
-			break
-		}
-		time.Sleep(200 * time.Microsecond)
 	}
+	early := finished // returned before the input ended: a target error was reported
 	if !finished {
-		if !res.Stalled {
-			// everything arrived: give the last replies time to be consumed
-			time.Sleep(2 * time.Millisecond)
-		}
 		pw.Close()
 		select {
 		case res.Err = <-done:
-		case <-time.After(10 * time.Second):
+		case <-time.After(20 * time.Second):
+			res.Stalled = true
 			cancel()
 			res.Err = <-done
-			res.Stalled = true
 		}
 	}
 	pr.Close()
@@ -155,7 +163,9 @@ func vfoRun(scn *vfoScn) (*vfoResult, error) {
 		res.Final = "typology"
 	case errors.Is(res.Err, ErrBreak):
 		res.Final = "break"
-	case res.Err == nil || errors.Is(res.Err, io.EOF) || errors.Is(res.Err, io.ErrClosedPipe):
+	case errors.Is(res.Err, common.ErrMove) || errors.Is(res.Err, common.ErrAsk):
+		res.Final = "other" // plain mode: the raw redirect error closes the run
+	case !early:
 		res.Final = "eof"
 	default:
 		res.Final = "other"
@@ -189,18 +199,28 @@ func vfoMonitor(scn *vfoScn, res *vfoResult) []vfoViol {
 		}
 		count[e.ID]++
 		k := keyOf[e.ID]
-		if count[e.ID] > 1 {
-			w := "double-exec"
-			if scn.Txn {
-				w = "txn-double-exec"
-			}
-			out = append(out, vfoViol{w, fmt.Sprintf("cmd %d executed %d times within one run", e.ID, count[e.ID])})
+		if count[e.ID] > 1 && scn.Txn {
+			out = append(out, vfoViol{"txn-double-exec", fmt.Sprintf("cmd %d executed %d times within one run", e.ID, count[e.ID])})
 		} else {
+			if count[e.ID] > 1 {
+				// plain mode: the sender re-sent a failed batch (a repeated suffix): the
+				// per-key order check restarts at this command
+				for kk := range last {
+					if last[kk] >= e.ID {
+						last[kk] = e.ID - 1
+					}
+				}
+			}
 			if has[k] && e.ID < last[k] {
 				out = append(out, vfoViol{"per-key-inversion", fmt.Sprintf("key %s: cmd %d took effect after cmd %d", scn.Keys[k], e.ID, last[k])})
 			}
-			// no gap: every earlier command of this key has executed already
+			// no gap: every earlier command of this key has executed already — unless
+			// the run reports an error (a reported restart covers the hole: in pipelined
+			// mode batches already in flight execute past a failed one)
 			for _, id := range perKey[k] {
+				if res.Final != "eof" {
+					break
+				}
 				if id >= e.ID {
 					break
 				}
@@ -251,10 +271,23 @@ func vfoGen(r *vfutil.Rand, name string, force string) *vfoScn {
 		scn.Txn, scn.Pipeline = true, true
 	case "txn-cross":
 		scn.Txn, scn.Cross, scn.Pipeline = true, true, r.Bool()
+	case "nofollow-block":
+		scn.NoFollow = true
+	case "nofollow-pipe":
+		scn.NoFollow, scn.Pipeline = true, true
+	case "fault":
+		scn.Txn, scn.Pipeline = r.Bool(), r.Bool()
+		scn.Fault = vfutil.Pick(r, []string{"er", "cb", "ac"})
+		scn.BC = r.Range(1, 2)
 	default:
 		scn.Txn = r.Chance(1, 2)
 		scn.Pipeline = r.Bool()
 		scn.Cross = scn.Txn && r.Chance(1, 6)
+		if r.Chance(1, 4) {
+			scn.Fault = vfutil.Pick(r, []string{"er", "cb", "ac"})
+			scn.BC = r.Range(1, 2)
+			scn.Cross = false
+		}
 	}
 	var tags []string
 	if scn.Txn {
@@ -272,6 +305,16 @@ func vfoGen(r *vfutil.Rand, name string, force string) *vfoScn {
 		}
 	}
 	n := r.Range(4, 16)
+	if scn.Fault != "" {
+		// long enough that commands remain unsent when the run stops (the final
+		// error class is then read off a run that returned by itself)
+		n = 24
+		scn.FaultAt = r.Intn(2)
+	}
+	if scn.NoFollow {
+		scn.BC = r.Range(2, 3)
+		n = r.Range(6, 10)
+	}
 	for i := 0; i < n; i++ {
 		t := r.Intn(len(tags))
 		scn.Cmds = append(scn.Cmds, vfoCmd{ID: i + 1, Key: vfutil.Pick(r, tagKeys[t])})
@@ -286,6 +329,9 @@ func vfoGen(r *vfutil.Rand, name string, force string) *vfoScn {
 			scn.BC = 2
 		}
 		return scn
+	}
+	if scn.Fault != "" {
+		return scn // faults on a stable cluster
 	}
 	// migration schedule by request count; a slot never returns to a node it left
 	nev := r.Range(1, 3)
@@ -307,7 +353,7 @@ func vfoGen(r *vfutil.Rand, name string, force string) *vfoScn {
 		if force != "" {
 			at = r.Intn(n / 2)
 		}
-		if !scn.Txn && r.Bool() {
+		if !scn.Txn && !scn.NoFollow && r.Bool() {
 			scn.During = append(scn.During, vfdoubles.Sched{At: at, Ev: vfdoubles.MigEv{Kind: "g", Slot: slot, Dst: dst}})
 			for _, k := range tagKeys[t] {
 				if r.Bool() {
@@ -329,7 +375,7 @@ func vfoOne(t *testing.T, s *vfutil.Session, idx int, scn *vfoScn) {
 	res, err := vfoRun(scn)
 	if err != nil {
 		s.Count("run_error")
-		s.Op("c19o "+tag+" 0 0 none", tag+" harness-error")
+		s.Op("c19o "+tag+" 0 0 none send always", tag+" harness-error")
 		return
 	}
 	redirects := 0
@@ -343,35 +389,54 @@ func vfoOne(t *testing.T, s *vfutil.Session, idx int, scn *vfoScn) {
 			s.Count("out_exec")
 		}
 	}
-	// the error class every attempt of the failing batch returns to sendFunc
-	cls := "none"
-	if scn.Txn && scn.Cross {
-		cls = "crossslot"
-	} else if scn.Txn && redirects > 0 && !scn.Pipeline {
-		cls = "redirect"
+	// the error class of the failing batch, where it surfaces (sendFuncOnce = Exec/Dispatch, or
+	// the pipelined receiver) and whether every attempt fails (cluster state) or only the first (fault)
+	faulted := false
+	for _, e := range res.Trace {
+		if strings.HasPrefix(e, "F:") {
+			faulted = true
+		}
 	}
-	// pipelined transactional mode learns of a redirect in the receiver goroutine
-	// (handleError), not through sendFunc: no re-send, reported as typology
-	want := cls
-	// re-sends of a batch = how often its accepted commands executed, minus one
-	maxArr := 0
-	execCount := map[int]int{}
-	for _, e := range res.Execs {
-		execCount[e.ID]++
-		if e.ID >= 0 && execCount[e.ID] > maxArr {
-			maxArr = execCount[e.ID]
+	follows := !scn.Txn && !scn.NoFollow
+	cls, path, pers := "none", "send", "always"
+	switch {
+	case scn.Txn && scn.Cross:
+		cls = "crossslot"
+	case faulted:
+		cls, pers = "other", "once"
+		if scn.Pipeline {
+			path = "recv"
+		}
+	case !follows && redirects > 0:
+		cls = "redirect"
+		if scn.Pipeline {
+			path = "recv"
+		}
+	}
+	// re-sends of a batch: a client that follows redirects makes every command arrive once per
+	// send plus once per redirect, so count executions; one that does not, arrivals
+	maxN := 0
+	if follows || faulted {
+		cnt := map[int]int{}
+		for _, e := range res.Execs {
+			cnt[e.ID]++
+			if e.ID >= 0 && cnt[e.ID] > maxN {
+				maxN = cnt[e.ID]
+			}
+		}
+	} else {
+		for id, n := range res.Arrivals {
+			if id >= 0 && n > maxN {
+				maxN = n
+			}
 		}
 	}
 	resends := 0
-	if maxArr > 1 {
-		resends = maxArr - 1
+	if maxN > 1 {
+		resends = maxN - 1
 	}
-	if scn.Txn && scn.Pipeline && !scn.Cross && redirects > 0 {
-		// tie line for this mode is fixed: (0 re-sends, typology)
-		s.Op(fmt.Sprintf("c19o %s 1 1 redirect", tag), fmt.Sprintf("%s resends=%d final=%s", tag, resends, res.Final))
-	} else {
-		s.Op(fmt.Sprintf("c19o %s %d %d %s", tag, vfoB2i(scn.Txn), vfoB2i(scn.Pipeline), want), fmt.Sprintf("%s resends=%d final=%s", tag, resends, res.Final))
-	}
+	s.Op(fmt.Sprintf("c19o %s %d %d %s %s %s", tag, vfoB2i(scn.Txn), vfoB2i(scn.Pipeline), cls, path, pers),
+		fmt.Sprintf("%s resends=%d final=%s", tag, resends, res.Final))
 	mode := "plain"
 	if scn.Txn {
 		mode = "txn"
@@ -384,7 +449,13 @@ func vfoOne(t *testing.T, s *vfutil.Session, idx int, scn *vfoScn) {
 	s.Count("mode_" + mode)
 	s.Count("final_" + res.Final)
 	s.Count("class_" + cls)
-	if redirects > 0 || scn.Cross {
+	if scn.Fault != "" {
+		s.Count("fault_" + scn.Fault)
+	}
+	if scn.NoFollow {
+		s.Count("nofollow")
+	}
+	if redirects > 0 || scn.Cross || faulted {
 		s.Distinct(scn.Name + " " + strings.Join(res.Trace, " "))
 	}
 	seen := map[string]bool{}
@@ -414,7 +485,8 @@ func TestVerifC19Out(t *testing.T) {
 	r := vfutil.NewRand(vfutil.Seed() + 1919)
 	idx := 0
 	// every mode with a redirect / cross-slot batch at least a few times
-	for _, f := range []string{"txn-block", "txn-block", "txn-block", "txn-pipe", "txn-pipe", "txn-cross", "txn-cross"} {
+	for _, f := range []string{"txn-block", "txn-block", "txn-block", "txn-pipe", "txn-pipe", "txn-cross", "txn-cross",
+		"nofollow-block", "nofollow-pipe", "fault", "fault", "fault", "fault", "fault", "fault"} {
 		vfoOne(t, s, idx, vfoGen(r.Fork(), fmt.Sprintf("f%d", idx), f))
 		idx++
 	}
